@@ -25,7 +25,7 @@ vars == <<mon, verdict, ps, fly, todoq, nmsg, ncrash, up, term, phase>>
 \* phase: "run" | "down" (after crash or exit: only Lose* and Restart)
 
 E0 == [op |-> "", t |-> 0, n |-> 0, c |-> 0, d |-> 0, a |-> 0, k |-> "", pos |-> 0, s |-> 0, to |-> 0, m |-> 0, ok |-> 0, rc |-> <<>>, recs |-> <<>>,
-       names |-> <<>>, tmo |-> 0, lossy |-> 0, conc |-> <<>>, announce |-> <<>>, status |-> 0, extra |-> 0]
+       names |-> <<>>, b |-> <<>>, atab |-> <<>>, pfx |-> <<>>, tmo |-> 0, lossy |-> 0, conc |-> <<>>, announce |-> <<>>, status |-> 0, extra |-> 0]
 \* history counters of the monitor that only the timing clauses (strict mode) read are normalised away, and the
 \* counters that matter are saturated, so that the reachable state space is finite
 Sat(x, m) == IF x > m THEN m ELSE x
@@ -40,7 +40,7 @@ Addr(n, i) == 10 * n + i
 ChanOf(i) == i % 2
 BlankP == [stage |-> "none", recs |-> <<>>, bq |-> FALSE, bgone |-> TRUE, chgone |-> <<TRUE, TRUE>>]
 
-Init == /\ mon = Step(InitMon, [E0 EXCEPT !.op = "start", !.conc = Conc, !.announce = <<120, 120>>, !.s = 91, !.d = 92, !.a = 93], FALSE).st
+Init == /\ mon = Step(InitMon, [E0 EXCEPT !.op = "start", !.conc = Conc, !.announce = <<120, 120>>, !.s = 91, !.d = 92, !.a = 93, !.pos = 604800], FALSE).st
         /\ verdict = "" /\ ps = [n \in 1..NMAX |-> BlankP] /\ fly = {} /\ todoq = <<>> /\ nmsg = 0 /\ ncrash = 0 /\ up = TRUE /\ term = FALSE /\ phase = "run"
 
 Accept == /\ nmsg < MaxMsgs /\ \E k \in 1..MaxRcpt :
@@ -155,7 +155,7 @@ LoseNote(n) ==
   /\ UNCHANGED <<fly, todoq, nmsg, ncrash, up, term, phase>>
 Restart ==
   /\ phase = "down"
-  /\ Feed([E0 EXCEPT !.op = "start", !.conc = Conc, !.announce = <<120, 120>>, !.s = 91, !.d = 92, !.a = 93])
+  /\ Feed([E0 EXCEPT !.op = "start", !.conc = Conc, !.announce = <<120, 120>>, !.s = 91, !.d = 92, !.a = 93, !.pos = 604800])
   /\ phase' = "run" /\ UNCHANGED <<ps, fly, todoq, nmsg, ncrash, up, term>>
 \* TERM: nothing new is started; when nothing is in flight the daemon exits and is started again
 Term == /\ phase = "run" /\ ~term /\ Feed([E0 EXCEPT !.op = "sig", !.k = "TERM"]) /\ term' = TRUE
